@@ -184,22 +184,32 @@ void write_value(WriteStream &w, Held &h)
     w << vv;
     break;
   }
+  // the array wrappers are written through a reference to their common base, or - every other value - as what they are
   case A15_ARRAYVIEW: {
     ArrayView<int> av(h.vi);
     const AbstractArray<int> &aa = av;
-    w << aa;
+    if (h.u64 & 2)
+      w << av;
+    else
+      w << aa;
     break;
   }
   case A15_OWNEDARRAY: {
     OwnedArray<int> oa(h.vi);
     const AbstractArray<int> &aa = oa;
-    w << aa;
+    if (h.u64 & 2)
+      w << oa;
+    else
+      w << aa;
     break;
   }
   case A15_FIXEDARRAY: {
     FixedArray<int> fa(h.vi.data(), h.vi.size());
     const AbstractArray<int> &aa = fa;
-    w << aa;
+    if (h.u64 & 2)
+      w << fa;
+    else
+      w << aa;
     break;
   }
   case A15_FIXEDARRAYVIEW:
@@ -207,7 +217,10 @@ void write_value(WriteStream &w, Held &h)
     auto fa = std::make_shared<FixedArray<int>>(h.vi.data(), h.vi.size());
     FixedArrayView<int> fv(fa, 0, h.vi.size());
     const AbstractArray<int> &aa = fv;
-    w << aa;
+    if (h.u64 & 2)
+      w << fv;
+    else
+      w << aa;
     break;
   }
   }
